@@ -10,6 +10,7 @@ from ..core    import Result, digest
 from ..harness import rp, rps, rpc, make_tmgr, make_task, make_pmgr, make_pilot
 
 ID     = 'C13'
+from ..harness import FINAL_STATES
 LEVEL  = 'exploration'
 MANIFEST = {
     'technique': 'runtime monitoring: before/after snapshot oracle on the real '
@@ -61,7 +62,7 @@ def gen_case(rng):
         # a task can carry an error record before it is final: a process
         # which exited non-zero travels through output staging with its
         # exception attached (and so do tasks with a failed staging step)
-        pre_exc = bind != 'none' and st not in rps.FINAL and \
+        pre_exc = bind != 'none' and st not in FINAL_STATES and \
                   st != rps.DONE and rng.random() < 0.3
         tasks.append({'uid': 't.%d' % i, 'bind': bind, 'pilot': pid,
                       'state': st, 'pre_exc': pre_exc})
@@ -153,7 +154,7 @@ def run_case(case, res):
         after = {u: snap(t) for u, t in tasks.items()}
 
         pilot = pm._pilots[pid]
-        final = pilot.state in rps.FINAL
+        final = pilot.state in FINAL_STATES
         if final:
             res.count('pilot_deaths')
             res.see('pilot_final_states', pilot.state)
@@ -167,7 +168,7 @@ def run_case(case, res):
         for u in tasks:
             b, a = before[u], after[u]
             own  = final and b['pilot'] == pid and pid != 'pilot.9999'
-            if own and b['state'] not in rps.FINAL:
+            if own and b['state'] not in FINAL_STATES:
                 res.count('own_tasks_checked')
                 res.see('own_states_at_death', b['state'])
                 if a['state'] != rps.FAILED:
@@ -182,7 +183,7 @@ def run_case(case, res):
                                      a['exception_detail']), ctx)
             else:
                 res.count('bystanders_checked')
-                kind = 'final' if b['state'] in rps.FINAL else \
+                kind = 'final' if b['state'] in FINAL_STATES else \
                        'unbound' if b['pilot'] is None else \
                        'other-pilot' if b['pilot'] != pid else 'own-nonfinal-pilot-alive'
                 res.see('bystander_kinds', kind)
@@ -206,7 +207,7 @@ def run(ctx):
         case = gen_case(rng)
         res.evaluations += 1
         bound = {t['pilot'] for t in case['tasks'] if t['pilot']}
-        if len(bound) >= 2 or any(t['pilot'] is None or t['state'] in rps.FINAL
+        if len(bound) >= 2 or any(t['pilot'] is None or t['state'] in FINAL_STATES
                                   for t in case['tasks']):
             res.digests.add(digest(case))
         if len(res.samples) < 2:
